@@ -134,6 +134,36 @@ func (i *interpreter) resolveExternal(fn *ssa.Function) externalFn {
 			i.logEvent(fr.th, "lock", m.id, 0, m.name, fr)
 			return true
 		}
+	case "(*sync.Pool).Get":
+		// one legal behaviour of sync.Pool: last put first, New when empty
+		return func(fr *frame, a []value) value {
+			i := fr.i
+			p := fr.nilCheck(a[0].(*value))
+			ps := i.syncPool(p)
+			i.stub("sync.Pool as a LIFO free list")
+			if n := len(ps.items); n > 0 {
+				v := ps.items[n-1]
+				ps.items = ps.items[:n-1]
+				return v
+			}
+			st := fn.Signature.Recv().Type().(*types.Pointer).Elem().Underlying().(*types.Struct)
+			nf := (*p).(structure)[fieldIndex(st, "New")]
+			switch f := nf.(type) {
+			case *ssa.Function:
+				if f == nil {
+					return iface{}
+				}
+			case nil:
+				return iface{}
+			}
+			return call(i, fr, 0, nf, nil)
+		}
+	case "(*sync.Pool).Put":
+		return func(fr *frame, a []value) value {
+			ps := fr.i.syncPool(fr.nilCheck(a[0].(*value)))
+			ps.items = append(ps.items, a[1])
+			return nil
+		}
 	case "(*sync.Once).Do":
 		return func(fr *frame, a []value) value {
 			fr.i.onceDo(fr, fr.nilCheck(a[0].(*value)), a[1])
@@ -668,6 +698,10 @@ func (i *interpreter) vndExternal(name string) externalFn {
 			i.stub("parser outcome chosen by the harness (nondeterministic front end)")
 			return outcomeGoodText
 		}
+	case "Nap":
+		return func(fr *frame, a []value) value { return nil }
+	case "WaitFor":
+		return func(fr *frame, a []value) value { return nil }
 	case "StopIfViolated":
 		return func(fr *frame, a []value) value {
 			if len(fr.i.res.Violations) > 0 {
